@@ -5,7 +5,7 @@ import os, subprocess, re
 VERIF = os.path.dirname(os.path.dirname(os.path.abspath(__file__)))
 CRATE = os.path.join(VERIF, "harness", "slicereplay")
 TDIR = os.path.join(VERIF, ".build", "slicereplay")
-ACCEPT = {"C05": ("C05",), "C13": ("C13", "C05"), "C20": ("C20",), "C01": ("C01",)}
+ACCEPT = {"C05": ("C05",), "C13": ("C13", "C05"), "C20": ("C20",), "C01": ("C01",), "C03": ("C03",)}
 _memo = {}
 
 
@@ -34,11 +34,12 @@ def confirm(prop, name, ob, fn):
         f.write("# native replay: harness/slicereplay (real ElfBytes vs reference reader on generated file families)\n" + (out or "")[-4000:] + "\n")
     if rc is None:
         return dict(reproduced=None, path=fn, detail=out[:300])
-    m = re.search(r"^FAIL (C\d\d) .*$", out, re.M)
-    if rc == 1 and m:
-        if m.group(1) in ACCEPT.get(prop, (prop,)):
-            return dict(reproduced=True, path=fn, detail=m.group(0)[:500])
-        return dict(reproduced=False, path=fn, detail="native families fail, but for another property: " + m.group(0)[:300])
+    ms = list(re.finditer(r"^FAIL (C\d\d(?:/C\d\d)*) .*$", out, re.M))
+    if rc == 1 and ms:
+        for m in ms:
+            if any(l in ACCEPT.get(prop, (prop,)) for l in m.group(1).split("/")):
+                return dict(reproduced=True, path=fn, detail=m.group(0)[:500])
+        return dict(reproduced=False, path=fn, detail="native families fail, but for another property: " + ms[0].group(0)[:300])
     if rc == 0:
         return dict(reproduced=False, path=fn, detail="all native slice scenarios agree with the reference reader")
     return dict(reproduced=None, path=fn, detail=f"replay program exit {rc}: {out[-300:]}")
